@@ -329,6 +329,8 @@ def run_impl(case, world):
                     kw["headers"] = build_hdrs(case["hdr"])
                 if case.get("ret") is not None:
                     kw["retries"] = build_arg(case["ret"])
+                elif case.get("none_kw"):
+                    kw["retries"] = None         # `retries=None` spelled out means the same as leaving it out
                 if case.get("redirect") is not None:
                     kw["redirect"] = case["redirect"]
                 if case["client"] == "pool":
@@ -336,6 +338,8 @@ def run_impl(case, world):
                     ckw = {}
                     if case.get("pret") is not None:
                         ckw["retries"] = build_arg(case["pret"])
+                    elif case.get("none_kw") and case.get("pool_via") != "manager":
+                        ckw["retries"] = None
                     if case.get("phdr") is not None:
                         ckw["headers"] = build_hdrs(case["phdr"])
                     if case.get("pool_via") == "manager":
@@ -349,6 +353,8 @@ def run_impl(case, world):
                     ckw = {}
                     if case.get("mret") is not None:
                         ckw["retries"] = build_arg(case["mret"])
+                    elif case.get("none_kw"):
+                        ckw["retries"] = None
                     if case.get("mhdr") is not None:
                         ckw["headers"] = build_hdrs(case["mhdr"])
                     if case["client"] == "px":
@@ -769,11 +775,14 @@ class C05(Prop):
         for i in range(n):
             r = rng.random()
             if r < 0.45:
-                yield gen_manager_case(rng, "pm", self.emphasis)
+                c = gen_manager_case(rng, "pm", self.emphasis)
             elif r < 0.75:
-                yield gen_manager_case(rng, "px", self.emphasis)
+                c = gen_manager_case(rng, "px", self.emphasis)
             else:
-                yield gen_pool_case(rng)
+                c = gen_pool_case(rng)
+            if i % 4 == 0:
+                c["none_kw"] = True      # every `retries` keyword that would be left out is passed as None
+            yield c
 
     def problems(self, case, reqs, outcome):
         return c05_problems(case, reqs, outcome)
